@@ -303,7 +303,7 @@ def validate_traces(work, module, cfg, shards, heap="3g", timeout=1800, par=None
 
 def _weight(e):
     r = e.get("res", {})
-    return 50 + r.get("w", 0) * r.get("hh", 0) + 3 * len(e.get("content") or []) + len(e.get("a") or []) + len(e.get("b") or []) + 40 * len(r.get("app") or [])
+    return 50 + (r.get("w", 0) * r.get("hh", 0) if ("px" in r or "pxdigest" in r) else 0) + 3 * len(e.get("content") or []) + len(e.get("a") or []) + len(e.get("b") or []) + 40 * len(r.get("app") or [])
 
 
 def shard(events, n, key=None):
